@@ -379,6 +379,20 @@ func indepCases(g *Gen, tc TreeCfg) {
 		opts := []ucfg.Option{ucfg.PathSep("."), ucfg.VarExp}
 		dl, sl := list(), list()
 		pol := r.Intn(len(policyOpts))
+		if i%3 == 0 {
+			// at one index the destination holds a plain value and the source an object or a list,
+			// merged index by index (the default policy): what arrives is a copy
+			dl[0] = randScalar(r)
+			if dl[0] == nil {
+				dl[0] = "plain"
+			}
+			if r.Bool() {
+				sl[0] = randMap(r, tc, 1)
+			} else {
+				sl[0] = []interface{}{randScalar(r), randMap(r, tc, 2)}
+			}
+			pol = 0
+		}
 		mo := append([]ucfg.Option{}, opts...)
 		if p := policyOpts[pol]; p.opt != nil {
 			mo = append(mo, p.opt)
